@@ -53,7 +53,7 @@ func innermost(block string) (access, bool) {
 }
 
 func isHarness(a access) bool {
-	if strings.HasPrefix(a.file, "/verif/sim/") || strings.Contains(a.fn, "verif/sim/") {
+	if strings.Contains(a.file, "/verif/sim/") || strings.Contains(a.fn, "verif/sim/") {
 		return true
 	}
 	// verif-tagged hook files inside the repository are harness code as well
